@@ -15,6 +15,19 @@ CHECKS = {
  "C05": "Every potential runtime fault (index, slice bound, nil dereference, nil map write, failed type assertion, nil call) on every symbolic path is raised by the executor and reported if it can escape: Router.ServeHTTP with arbitrary path and method bytes on 8 table histories, Group.ServeHTTP with Hosts/version/And matchers, Hosts.Match, the path-version matcher, and CheckSyntax/URL/Router.URL/Handle on every pattern string up to the bound (Handle must register or panic with an error value and agree with CheckSyntax).",
  "C08": "HEAD vs GET with the handler's write sizes as symbolic 64-bit ints: z3 decides that Content-Length equals the sum of the sizes written, that no body byte reaches the client and that status and headers equal GET's; all bounded histories of adding/removing GET/POST/DELETE with removal lists containing HEAD, OPTIONS and the empty string against the table model; Handle with every method string up to the bound.",
  "C17": "One Handle call (pattern pool incl. name/'-'/rule variants and malformed patterns x method lists incl. reserved, duplicate and arbitrary method strings) on four tables; for a rejected call Routes(), all Allow headers and the outcome of the same symbolic request are compared before/after (2-safety); the accept/reject clauses are checked against an independent shape comparison.",
+ "C06": "Router with WithLock(true): writer x reader pairs (and triples) run as logical threads inside the symbolic executor; the schedule is a symbolic choice taken at every lock operation, so all interleavings at synchronisation granularity are explored, and a vector-clock happens-before monitor watches every heap access the interpreted mux code makes (field/element granularity, whole-map granularity for maps): two conflicting accesses unordered by happens-before are a data race. Each response must be admissible for some sequential state. Races are confirmed natively under go test -race before they are reported.",
+ "C07": "Sequential isolation: a brand-new router's answers are compared before and after every bounded sequence of operations on other routers, a Hosts matcher and a Group; pooled contexts: consecutive requests with symbolic paths must each see exactly their own parameters (C01 oracle); concurrency: distinct instances mutated in parallel and parallel requests on a quiescent router (with/without WithLock) run as logical threads under the happens-before monitor.",
+ "C09": "Every bounded program of Use/Handle/Prefix/nested Prefix/Resource/Any calls (and Group.Use/New/Add programs), with and without WithTrace, both map iteration orders; then every handler kind of every route is invoked and its middleware chain (a value carried by the handler type), the factory arguments and the number of factory invocations are compared with the documented onion order computed from the program text. No data dimension: exhaustive bounded exploration of the real SSA.",
+ "C10": "URL building with symbolic parameter values: mux.URL / Router.URL must equal the independent tokenizer's substitution and fail iff malformed or a key is missing; strict mode must additionally fail unless the pattern is a live route and every value matches its rule over its whole length (z3 finds e.g. a value with a non-matching prefix); round trip: every dispatched symbolic path is rebuilt from its captured parameters.",
+ "C11": "CORS safety half against a reference decision table with its own header-list parser: Allow-Origin only '*' (if configured) or the request's own listed Origin, credentials only with an echoed listed origin, nothing on deny/404/405/unserved preflight/disallowed requested header; Origin, Access-Control-Request-Method/-Headers and max-age are symbolic.",
+ "C12": "CORS completeness half on the same product: allowed origins get Allow-Origin/Credentials/Expose-Headers exactly as configured, accepted preflights additionally Allow-Methods = the route's Allow set, Allow-Headers and Max-Age (a symbolic int compared through strconv.Itoa), non-preflights never carry preflight-only headers, Vary names Origin / Access-Control-Request-Method / Access-Control-Request-Headers.",
+ "C13": "Groups of routers with path-version/Hosts/header-version/And/Or/nil matchers: for every symbolic Host and path the observed router, handler, parameters and request path are compared with independent reference matchers evaluated on the original request (first accepting router; rejected And/Or members leave no trace); group 404 through the group's middlewares; Remove and duplicate names.",
+ "C14": "Hosts.Match on every symbolic ASCII Host after every bounded Add/Delete/RegisterInterceptor history, compared with an own normaliser plus the C02 reference resolver over the lower-cased live domains, including the reported parameters.",
+ "C15": "Path-version matcher with symbolic version strings and symbolic path against a reference (normalise, first listed prefix wins, strip exactly the segment, record '/<version>', untouched on reject); header-version matcher on a table of Accept headers and on 'a/b; key=' + symbolic token bytes.",
+ "C16": "Every sequence of requests of 7 kinds, panicking or not with a symbolic panic value, on Router/Group with and without a recovery option: the recovery function gets exactly that value exactly once, nothing escapes, later requests are served normally; without the option the same value reaches the caller.",
+ "C18": "TRACE with every symbolic path on 8 table histories with and without WithTrace (handler, exact middleware chain, Allow sets, manual registration), and the bundled Trace helper with a nondeterministic request dump: status, Content-Type in the header snapshot taken at WriteHeader, escaped body, error passthrough.",
+ "C19": "Every bounded program of facade calls is run through Prefix/Resource objects on one router and as its mechanical desugaring into Router calls on another; Routes(), the outcome of the same symbolic request (handler, pattern, parameters, middleware chain, status, Allow) and the URL methods must agree, and Prefix.Clean must remove exactly the model's patterns with that prefix.",
+ "C20": "Params accessors after every bounded Set/Delete/Reset/Destroy+NewContext sequence with symbolic keys and values against a shadow list; Int/Uint/Bool (+Must*) against strconv executed symbolically from its own SSA for every string up to the bound plus edge-case seeds; Float on seeds; a context from the pool starts empty.",
 }
 NA = {}
 
